@@ -930,6 +930,18 @@ func (t *Term) sgr(ps [][]int) {
 	}
 }
 
+// c1Byte: in this terminal's character set the byte is a C1 control (ISO 8859: yes; KOI8-R
+// and the code pages have printable characters there; in the multi-byte sets it is a lead or
+// trail byte and decodes to no character on its own).
+func (t *Term) c1Byte(c byte) bool {
+	out, err := t.dec.NewDecoder().Bytes([]byte{c})
+	if err != nil {
+		return false
+	}
+	r, n := utf8.DecodeRune(out)
+	return n == len(out) && r >= 0x80 && r < 0xa0
+}
+
 func (t *Term) oscByte(c byte) {
 	if t.oscEsc {
 		t.oscEsc = false
@@ -951,6 +963,16 @@ func (t *Term) oscByte(c byte) {
 		t.oscEsc = true
 	case c < 0x20 || c == 0x7f:
 		t.err("control byte %#02x inside an OSC string", c)
+	case c >= 0x80 && c < 0xa0 && t.dec != nil && t.c1Byte(c):
+		// an 8-bit terminal: the C1 controls are single bytes; 9c is the string terminator and
+		// every other one ends the string too (here as an error)
+		if c == 0x9c {
+			t.st = stGround
+			t.dispatchOSC()
+		} else {
+			t.err("C1 control byte %#02x inside an OSC string", c)
+			t.st = stGround
+		}
 	default:
 		t.osc = append(t.osc, c)
 		if len(t.osc) > 1<<16 {
